@@ -26,7 +26,7 @@ CHECKS = {
     "C20": ("exploration", "runtime monitoring: every diagnostic of an API-specific checker is resolved through types.Info (Uses/PkgName/Builtin) on generated namesake programs with real-API twins, on the maintainers' examples transplanted onto generated full shadows of the standard packages, and on hand-written shadowing shapes",
             "Generated packages re-declare builtins and standard package names at package, import, local, parameter, field and type-parameter scope in same-shape and variadic shapes; a diagnostic whose flagged node only contains namesake callees is a violation; every table entry must be confirmed alive on the real API.",
             "subject table checker->API is part of the harness; diagnostics without a candidate spelling are inconclusive", "5/C20"),
-    "C04": ("exploration", "runtime monitoring: Go race detector on the real binaries (-race -tags verif) under seeded schedule perturbation (hook H1), H1 begin/end trace as interleaving evidence, differential vs the sequential run; concurrent analyzer passes in a -race harness",
+    "C04": ("exploration", "runtime monitoring: Go race detector on the real binaries (-race -tags verif) under seeded schedule perturbation (hook H1), H1 begin/end trace as interleaving evidence, differential vs the sequential run, a bait package in which several checkers need the same facts at once; concurrent analyzer passes in a -race harness (cold processes, also with analyzer.DisableCache)",
             "go-critic/gocritic built with -race are run at -concurrency {1,2,3,16,64} x GOMAXPROCS {1,2,16} x VERIF_SCHED_SEED over generated, std and repo packages; any race block with a /repo frame or any difference from the -concurrency=1 diagnostics is a violation. The analyzer is exercised by the stock driver over multi-package workspaces and by vrace (N goroutines calling Analyzer.Run behind a barrier for many rounds).",
             "race detector sees only executed accesses within its history window; perturbation only between checker runs", "5/C04"),
     "C06": ("exploration", "runtime monitoring of the real binaries: recorded `debug: X is enabled` lines, exit status and diagnostic attributions checked by an executable selection spec over a covering set of flag vectors",
@@ -38,10 +38,10 @@ CHECKS = {
     "C08": ("exploration", "runtime differential of the four real binaries on the same workspaces under equivalent configurations; analyzer -json edits vs Warning.Suggestion from the in-process run; other target platforms in the environment; a module declaring an old language version",
             "go-critic, gocritic and go-critic-analysis are run over generated packages plus a package with in-package tests, external tests and a main under enable-all / name and tag lists (incl. name-enabled-while-tag-disabled) / every checker parameter / -go; multisets of (file,line,col,checker,message) must be equal and free of duplicates; the analyzer must offer every CLI checker and parameter flag; -json edits must equal the API's quick fixes; the twin command's sources must be byte-identical.",
             "CLI run with -checkGenerated -checkTests (the stock driver has no such filters); the CLI's default -enable list is passed to the analyzer explicitly", "5/C08"),
-    "C16": ("exploration", "runtime observation of the real CLI in constructed layouts (cwd/GOPATH/GOROOT/target relations, flags) with a resolve-and-compare oracle on exit status, output lines and file filters",
+    "C16": ("exploration", "runtime observation of the real CLI in constructed layouts (cwd/GOPATH/GOROOT/target relations incl. case variants, a cgo module, a command in a .test directory, flags) with a resolve-and-compare oracle on exit status, output lines and file filters",
             "Each file of the layout carries exactly one known trigger; printed locations are resolved back (./, $GOPATH, $GOROOT, absolute) to an existing file and line:col; exit status, exactly-once, -checkTests/-checkGenerated filtering (three-valued generated classification from ast.IsGenerated) are checked per run, incl. cwd's path occurring inside the target path and a symlinked GOROOT; CLI lines are compared with the API run.",
             "three-valued 'generated': only G+ must be filtered and only G- must never be filtered", "5/C16"),
-    "C19": ("fault_enumeration", "runtime fault enumeration on the real binaries: invalid configurations x front-ends x package counts, broken target packages; exit status/stderr oracle; in-process re-entry of the analyzer's init latch",
+    "C19": ("fault_enumeration", "runtime fault enumeration on the real binaries: invalid configurations x front-ends x package counts, broken target packages, the maintainers' examples of every checker made ill-typed in up to 21 ways (every checker over every such file under recover, a sample through the real command); exit status/stderr/panic-frame oracle; in-process re-entry of the analyzer's init latch",
             "Every invalid configuration of the property's list is run through go-critic, gocritic and both analysis binaries with 1, 2, (5,) 12 packages; the run must stop non-zero with a message naming the problem, without panic trace and without diagnostics, identically for every package count; nine kinds of broken target packages are analysed alone and mixed with healthy ones; concurrent re-entry after an init error is replayed in-process.",
             "targets that do not exist at all and -concurrency < 1 are outside the property's text", "5/C19"),
     "C18": ("fault_enumeration", "runtime fault enumeration through linter.NewChecker on the registered ruleguard checker: sequences of rule files from a fault alphabet x failOn settings x enable/disable vectors; 12-line policy spec with don't-cares as oracle; CLI sample",
@@ -50,7 +50,7 @@ CHECKS = {
     "C13": ("exploration", "runtime metamorphic monitoring: the maintainers' example packages are transformed (append, pad, permute) and re-analysed; the examples' own /*! */ expectations, which move with their declaration, are the oracle; identity round as control; the same transformations on generated packages with a per-declaration diagnostic multiset as oracle",
             "All 107 example packages are copied into the scratch module under T1 (append unrelated declarations), T2 (blank lines/padding declarations after the import block), T4 (permute plain functions) and combinations with seeded choices; every expected warning must still be produced and no new one may appear outside padding; order-subject checkers are exempt from permutation only.",
             "the harness reproduces linttest's configuration; an example whose untouched copy fails is excluded as a harness mismatch (listed in evidence)", "5/C13"),
-    "C14": ("exploration", "runtime monitoring of threshold families: constructs of measure n x thresholds t around every boundary through the in-process override, both CLIs and the analyzer; compiled unsafe.Sizeof program as the size oracle, also compiled for and run on 386 against all front-ends under GOARCH=386",
+    "C14": ("exploration", "runtime monitoring of threshold families: constructs of measure n x thresholds t around every boundary through the in-process override, both CLIs and the analyzer; compiled unsafe.Sizeof program as the size oracle (aggregates, non-aggregate kinds, instantiated generic types, defined and alias arrays), also compiled for and run on 386 against all front-ends under GOARCH=386",
             "For every numeric parameter a family K_n is analysed at thresholds around n; the documented direction predicate decides each (n,t) pair (which implies unit step and monotonicity), neighbouring thresholds are compared by set inclusion, byte sizes quoted in messages are compared with a compiled unsafe.Sizeof program for padded structs, and each parameter value is passed in-process, through both CLIs and through the analyzer flag with equal results; boolean parameters run on discriminating inputs.",
             "commentedOutCode's 'length of the comment' has no unambiguous unit anchor (go/ast's Text() ends with a newline): only unit step and monotonicity are demanded there", "5/C14"),
     "C15": ("exploration", "runtime monitoring of every diagnostic produced under target versions 1.13-1.23 (embedded rules, hand-written checkers, dynamic ruleguard on the same rule source) against a first-appearance table built from GOROOT/api; differential unset vs newest, 1.N vs go1.N, front-end -go vs SetGoVersion",
@@ -59,7 +59,7 @@ CHECKS = {
     "C11": ("exploration", "runtime monitoring of the real regexpSimplify checker on synthesised files of generated patterns; oracle = Go's regexp (submatch indices on enumerated subjects, group counts and names)",
             "About 2e4 (quick) / 2.5e5 (thorough) distinct patterns from a seeded grammar plus the repository's own example patterns are analysed in files of 500 regexp.MustCompile calls; every proposed rewrite is compiled next to its original and compared on all subject strings up to length 3/4 over the pattern's own runes plus seeded longer ones.",
             "agreement on enumerated subjects is evidence, not proof; four narrow input classes are masked as known findings (listed in evidence)", "5/C11"),
-    "C09": ("exploration", "runtime monitoring of every diagnostic that proposes code: the proposal is located (QuickFix or message), substituted into a scratch copy, and go/parser, go/types and a second run of the real checker judge it; -fix end-to-end through the real analysis binary",
+    "C09": ("exploration", "runtime monitoring of every diagnostic that proposes code: the proposal is located (QuickFix or message), substituted into a scratch copy, and go/parser, go/types and a second run of the real checker judge it, under default parameters and with every boolean parameter flipped; -fix end-to-end through the real analysis binary",
             "Scenario families for every Suggest rule and hand-written 'replace A with B' checker, generated packages and the maintainers' examples are analysed; each proposal must parse as the category it replaces, keep the file type-checking with the same expression type, swallow no unrelated statement and disappear on re-analysis; go-critic-analysis -fix is run on scratch copies and bytes outside the edit ranges are compared.",
             "message-only proposals that cannot be matched back to a node are inconclusive; import management is outside an edit's range", "5/C09"),
     "C10": ("exploration", "runtime differential: original scenario function vs a copy with the proposed rewrite applied, both compiled by the Go compiler and executed on an input grid; results, panics, ordered side-effect traces and final state compared",
